@@ -315,6 +315,12 @@ def run(ctx):
         cases.append((with_directives(rng, t, ['"x"', '"y"', '"z"', '"w"'], []), None, False, False))
     for _ in range(100 if quick else 1000):
         cases.append((rule_handle_grammar(rng), None, True, True))
+    # entries holding a shift and several reductions, with directives that rank only some of them: the entry is settled iff
+    # one action beats every other one - in whatever order the actions are visited (non-strict: precedence may remove sentences)
+    from .c15 import multiway_conflict
+    for _ in range(40 if quick else 400):
+        t = multiway_conflict(rng)
+        cases += [(t, None, False, False)] * 4        # asked four times: each time the actions come in another order
     impl = ctx.run_impl_par("lalr", [hx(t.encode()) for t, _, _, _ in cases], timeout=900, isolate=True)
     model = ctx.run_model_par("lalr", [l.split(" ", 1)[1] if " " in l else "nt=0 nnt=0 start=0 prods= levels=" for l in impl])
     stats = {"accepted": 0, "rejected_conflict": 0, "rejected_earlier": 0, "tables_isomorphic_to_reference": 0, "tables_well_formed": 0, "sentences_compared": 0, "expressions_compared": 0, "known_order_dependence": 0}
@@ -353,8 +359,8 @@ def run(ctx):
                                   {"input": text, "input_hex": hx(text.encode()), "message": unhx(g["fields"].get("msg", "-")).decode("utf-8", "replace")[:600]})
                 continue
             if ref_ok:
-                # the reference resolves every cell: either a real disagreement or the dependency's order-dependent
-                # resolution of three-way conflicts (it compares against a running maximum in set-iteration order)
+                # the reference resolves every cell and emerge does not (since c31491e emerge settles an entry exactly as the
+                # reference does - the action that beats every other one - so the raw entries must differ: F26-style tables)
                 ncorr += 1
                 if ncorr <= 3:
                     ctx.add_broken("correspondence: the grammar is rejected with a conflict although the reference LALR(1) construction with the documented precedence rule resolves every cell",
